@@ -1,7 +1,7 @@
 (* C01 - Completeness.  Only statements, each closed by `exact`, pinned by `Check`,
    followed by Print Assumptions. *)
 From Coq Require Import List.
-From PC Require Import Base.Field Base.Result Base.Poly Schemes.KZG10 Proofs.KZG10Facts.
+From PC Require Import Base.Field Base.Result Base.Poly Schemes.KZG10 Schemes.Marlin Proofs.KZG10Facts Proofs.MarlinComplete.
 Import ListNotations.
 
 Theorem C01_kzg10_complete :
@@ -21,3 +21,47 @@ Theorem C01_kzg10_serves :
                  open (powers_of up s) p z [] = Ok pf.
 Proof. exact @kzg_serves. Qed.
 Print Assumptions C01_kzg10_serves.
+
+(* MarlinKZG10, end to end: keys from setup + trim (any supported degree, hiding bound and
+   enforced-bound list), commitments from commit (any list of labelled polynomials, each with
+   or without degree bound and hiding bound, any RNG tape), any selection/ordering `sel` of
+   them opened at any point with any challenge tape: the verifier accepts and has consumed
+   exactly the challenges the prover consumed.  The side condition excludes one algebraic
+   coincidence of the code as it stands (the challenge-weighted sum of the unshifted blinding
+   polynomials vanishing identically while shifted blinding is present); it is discharged
+   outright by the corollary below when no shifted blinding is present. *)
+Theorem C01_marlin_complete :
+  forall (FO : FieldOps) (FL : FieldLaws FO)
+         D beta g gamma_g h up s sh bounds ck vk lps rng csts nd sel z chal pf rest,
+    setup D false beta g gamma_g h = Ok up ->
+    mtrim up s sh bounds = Ok (ck, vk) ->
+    commit_all ck lps rng = Ok (csts, nd) ->
+    let items := map (fun i => nth i (with_states lps csts) ({| lp_label := 0%N; lp_poly := []; lp_bound := None; lp_hiding := None |}, {| mr_rand := []; mr_shifted := None |})) sel in
+    let cs := map (fun i => nth i (labelled lps csts) {| lc_label := 0%N; lc_comm := {| mc_comm := f0; mc_shifted := None |}; lc_bound := None |}) sel in
+    Forall (fun i => (i < length lps)%nat) sel ->
+    mopen ck items z chal = Ok (pf, rest) ->
+    (forall a r, open_loop ck z items chal oacc0 = Ok (a, r) ->
+                 is_hiding (trim (oa_r a)) = false -> eval (oa_sr a) z = f0) ->
+    mcheck vk cs z (map (fun it => eval (lp_poly (fst it)) z) items) pf chal = Ok (true, rest).
+Proof. exact @marlin_complete. Qed.
+Print Assumptions C01_marlin_complete.
+
+Theorem C01_marlin_complete_unconditional :
+  forall (FO : FieldOps) (FL : FieldLaws FO) ck vk g gam h b D hi n m z items cs chal pf rest,
+    KeyOK ck vk g gam h b D hi n m ->
+    Forall2 (honest ck g gam b D m) items cs ->
+    Forall no_shifted_blinding items ->
+    mopen ck items z chal = Ok (pf, rest) ->
+    mcheck vk cs z (map (fun it => eval (lp_poly (fst it)) z) items) pf chal = Ok (true, rest).
+Proof. exact @marlin_open_check_complete_unconditional. Qed.
+Print Assumptions C01_marlin_complete_unconditional.
+
+(* keys produced by setup + trim are of the shape the completeness theorem needs *)
+Theorem C01_marlin_keys :
+  forall (FO : FieldOps) (FL : FieldLaws FO) D beta g gamma_g h up s sh bounds ck vk,
+    setup D false beta g gamma_g h = Ok up ->
+    mtrim up s sh bounds = Ok (ck, vk) ->
+    KeyOK ck vk g gamma_g h beta D (last (bounds_list ck) O) (s + 1) (sh + 2) /\
+    (s <= D)%nat /\ ck_max_degree ck = D /\ ck_bounds ck = option_map sort_dedup bounds.
+Proof. exact @mtrim_keyok. Qed.
+Print Assumptions C01_marlin_keys.
